@@ -8,7 +8,10 @@ G: every object the specification emits is concretised twice (WithSections, Stri
    are observed (iter_tags / get_tag / num_tags in several consumption patterns, DynamicTag.entry and
    .needed/.soname/.rpath/.runpath, iter_tags(type=), get_table_offset, get_relocation_tables - the tables the array
    names, each with its flavour and entries; DynamicSegment .num_symbols / iter_symbols / get_symbol /
-   get_symbol_by_name) and compared with the view AND with each other.
+   get_symbol_by_name) and compared with the view AND with each other.  Mode "shdr" varies the relation between the
+   SHT_DYNAMIC section header and PT_DYNAMIC (coinciding / disjoint / section stale inside the segment or wider than it with
+   sh_link naming another string table / no SHT_DYNAMIC section): the segment views must deliver the DT_STRTAB strings in
+   all of them; the section view is observed where the specification says a section describes the array (view.secview).
 T: for every corpus file with PT_DYNAMIC the tag scans of the section view, the segment view and of a copy whose
    section header table was removed are validated by spec/trace/DynamicTrace.tla against the scan machine run on
    the raw table bytes; the three views must agree on tags, strings and (where a hash table determines it) the
@@ -360,8 +363,13 @@ def _replay(run, ctx, obj, ELFFile):
         rtag = 'pltrel=%s/tables=%s' % (rs['plt'], '+'.join(k for k in ('rel', 'rela', 'relr') if rs[k]) or 'none')
     views = (('section', opener(img1, 'section'), 'DynamicSection'), ('segment', opener(img1, 'segment'), 'DynamicSegment'),
              ('stripped', opener(img2, 'segment'), 'DynamicSegment'))
+    # view.secview (computed by the specification): a SHT_DYNAMIC section describes the array.  Where it is FALSE (the section
+    # header is stale / wider than the segment / absent) the section view is not asserted; both segment views are.
+    secview = view.get('secview', True)
     obs = {}
     for vi, (label, fresh, cls) in enumerate(views):
+        if label == 'section' and not secview:
+            continue
         try:
             with core.guard(20):
                 d = fresh()
@@ -370,7 +378,8 @@ def _replay(run, ctx, obj, ELFFile):
                     continue
                 if label == 'stripped' and d.elffile.num_sections() != 0:
                     bad('front-end', 'no sections', d.elffile.num_sections(), label)
-                obs[label] = _observe_view(ctx, bad, label, fresh, view['tags'], vi == turn, view['relfree'], view.get('rels', ()), rtag)
+                obs[label] = _observe_view(ctx, bad, label, fresh, view['tags'], vi == turn or (vi == 1 and not secview and turn == 0),
+                                           view['relfree'], view.get('rels', ()), rtag)
                 if label != 'section':
                     obs[label]['syms'], note = _observe_symbols(ctx, bad, label, fresh(), view, cclass)
                     if note and cclass.startswith('gnu-empty'):
@@ -692,13 +701,17 @@ def check(run):
                 'after DT_NULL x position of the mandatory block; PT_LOAD layouts; symbol tables x hash kinds x symoffset incl. GNU ld\'s '
                 'empty table; one object per group of registry DT codes under several machines / OS ABIs; three PT_LOADs with the second '
                 'directly behind the first in memory but not in the file x the table at that boundary; relocation tables: subsets of '
-                'REL/RELA/RELR x DT_JMPREL absent / DT_PLTREL = REL / RELA), each as two images (with '
+                'REL/RELA/RELR x DT_JMPREL absent / DT_PLTREL = REL / RELA; the SHT_DYNAMIC header / PT_DYNAMIC relation: coinciding, disjoint, '
+                'stale inside the segment / wider than it with another sh_link, no SHT_DYNAMIC section), each as two images (with '
                 'section headers, stripped); distinct by the object key; non-trivial = more than the terminator in the array.  '
                 'T cases = corpus files with PT_DYNAMIC (three scans each); non-trivial = all of them')
     run.assumptions += ['DT_STRTAB and DT_SYMTAB are present, the array is terminated inside PT_DYNAMIC / .dynamic, PT_LOAD address ranges '
                         'do not overlap (gABI well-formedness)',
                         'the symbol count is asserted only where a hash table determines it: a GNU table with a populated bucket, or a '
                         'SysV table (nchain); the no-hash pointer heuristic is recorded, never asserted',
+                        'where the SHT_DYNAMIC section header does not describe the array PT_DYNAMIC locates (stale / wider / absent: '
+                        'view.secview false) only the segment views are asserted (strings through DT_STRTAB, gABI); a coinciding section '
+                        'that links to another table than DT_STRTAB addresses is not built (the property allows either table there)',
                         'names the vendored registry / the Solaris table of DynScan.tla do not define are not asserted (vocabulary gating)',
                         'strings that are not UTF-8 have no representation fixed by the property: only "a string in every view, the same '
                         'in all views" is asserted for them',
